@@ -18,6 +18,101 @@ type SpecEnv struct {
 	pkg   *types.Package
 	bound map[string]SV
 	mode  Mode
+	pol   int // polarity of the position being evaluated: +1, -1, 0 (unknown)
+	role  int // 0 plain, 1 goal (positive foralls are skolemised), 2 hypothesis (foralls are registered for instantiation)
+	path  []T // antecedents enclosing the current position
+}
+
+type qhyp struct {
+	e    *Expr
+	env  *SpecEnv
+	path []T
+}
+
+func (env *SpecEnv) flip() *SpecEnv {
+	n := *env
+	n.pol = -env.pol
+	return &n
+}
+
+func (env *SpecEnv) nopol() *SpecEnv {
+	n := *env
+	n.pol = 0
+	return &n
+}
+
+func (env *SpecEnv) under(a T) *SpecEnv {
+	n := *env
+	n.path = append(append([]T{}, env.path...), a)
+	return &n
+}
+
+// evalGoal evaluates a proof goal: universally quantified variables in positive positions
+// become skolem constants, and instances of the registered quantified hypotheses at the
+// goal's index terms are collected as hints for the obligation created next.
+func (vc *VC) evalGoal(e *Expr, env *SpecEnv) T {
+	n := *env
+	n.role, n.pol, n.path = 1, 1, nil
+	vc.goalSk, vc.goalIdx = nil, nil
+	t := vc.evalSpec(e, &n).t
+	vc.collectHints()
+	return t
+}
+
+// evalHyp evaluates an assumption made under `guard`.
+func (vc *VC) evalHyp(e *Expr, env *SpecEnv, guard T) T {
+	n := *env
+	n.role, n.pol, n.path = 2, 1, nil
+	if guard != tTrue {
+		n.path = []T{guard}
+	}
+	return vc.evalSpec(e, &n).t
+}
+
+func (vc *VC) collectHints() {
+	vc.pendingHints = nil
+	if vc.dry {
+		return
+	}
+	terms := append(append([]T{}, vc.goalSk...), vc.goalIdx...)
+	seen := map[T]bool{}
+	var uniq []T
+	for _, t := range terms {
+		if !seen[t] && !strings.Contains(t, "q_") {
+			seen[t] = true
+			uniq = append(uniq, t)
+		}
+	}
+	if len(uniq) > 10 {
+		uniq = uniq[:10]
+	}
+	hs := vc.qhyps
+	if len(hs) > 30 {
+		hs = hs[len(hs)-30:]
+	}
+	seenI := map[T]bool{}
+	for _, q := range hs {
+		for _, t := range uniq {
+			v := q.e.Vars[0]
+			n := q.env.bind(v[0], SV{t: t, srt: "Int"})
+			n.role, n.pol = 0, 0
+			body := vc.evalSpec(q.e.Args[0], n).t
+			switch specSort(v[1]) {
+			case "byte":
+				body = implies(inRange(t, "0", "255"), body)
+			case "nat":
+				body = implies(le("0", t), body)
+			}
+			inst := implies(and(q.path...), body)
+			if inst != tTrue && !seenI[inst] {
+				seenI[inst] = true
+				vc.pendingHints = append(vc.pendingHints, inst)
+			}
+			if len(vc.pendingHints) >= 160 {
+				return
+			}
+		}
+	}
 }
 
 func (env *SpecEnv) withOld() *SpecEnv {
@@ -72,7 +167,13 @@ func (vc *VC) evalSpec(e *Expr, env *SpecEnv) SV {
 	case "ident":
 		return vc.evalIdent(e.Name, env)
 	case "unop":
-		x := vc.evalSpec(e.Args[0], env)
+		ue := env
+		if e.Name == "!" {
+			ue = env.flip()
+		} else {
+			ue = env.nopol()
+		}
+		x := vc.evalSpec(e.Args[0], ue)
 		switch e.Name {
 		case "!":
 			return mathBool(not(x.t))
@@ -84,7 +185,38 @@ func (vc *VC) evalSpec(e *Expr, env *SpecEnv) SV {
 	case "binop":
 		return vc.evalBinop(e, env)
 	case "quant":
-		n := env
+		allInt := true
+		for _, v := range e.Vars {
+			switch specSort(v[1]) {
+			case "Int", "byte", "nat":
+			default:
+				allInt = false
+			}
+		}
+		if env.role == 1 && env.pol > 0 && e.Name == "forall" && allInt {
+			// skolemise
+			n := env
+			var ranges []T
+			for _, v := range e.Vars {
+				sk := vc.fresh("sk_"+v[0], "Int")
+				vc.goalSk = append(vc.goalSk, sk)
+				switch specSort(v[1]) {
+				case "byte":
+					ranges = append(ranges, inRange(sk, "0", "255"))
+				case "nat":
+					ranges = append(ranges, le("0", sk))
+				}
+				n = n.bind(v[0], SV{t: sk, srt: "Int"})
+			}
+			body := vc.evalSpec(e.Args[0], n).t
+			return mathBool(implies(and(ranges...), body))
+		}
+		if env.role == 2 && env.pol > 0 && e.Name == "forall" && allInt && len(e.Vars) == 1 && !vc.dry {
+			cp := *env
+			cp.role, cp.pol = 0, 0
+			vc.qhyps = append(vc.qhyps, qhyp{e: e, env: &cp, path: append([]T{}, env.path...)})
+		}
+		n := env.nopol()
 		var binders []string
 		var ranges []T
 		for _, v := range e.Vars {
@@ -124,8 +256,13 @@ func (vc *VC) evalSpec(e *Expr, env *SpecEnv) SV {
 	case "select":
 		return vc.evalSelect(e, env)
 	case "index":
-		x := vc.evalSpec(e.Args[0], env)
-		i := vc.evalSpec(e.Args[1], env)
+		x := vc.evalSpec(e.Args[0], env.nopol())
+		i := vc.evalSpec(e.Args[1], env.nopol())
+		if env.role == 1 && i.sortIn(vc) == "Int" {
+			if _, isNum := isNumeral(i.t); !isNum && len(i.t) < 200 {
+				vc.goalIdx = append(vc.goalIdx, i.t)
+			}
+		}
 		return vc.indexSpec(x, i, env)
 	case "call":
 		return vc.evalCall(e, env)
@@ -376,8 +513,18 @@ func (vc *VC) nilOf(x SV) T {
 }
 
 func (vc *VC) evalBinop(e *Expr, env *SpecEnv) SV {
-	a := vc.evalSpec(e.Args[0], env)
-	b := vc.evalSpec(e.Args[1], env)
+	var a, b SV
+	switch e.Name {
+	case "&&", "||":
+		a = vc.evalSpec(e.Args[0], env)
+		b = vc.evalSpec(e.Args[1], env)
+	case "==>":
+		a = vc.evalSpec(e.Args[0], env.flip())
+		b = vc.evalSpec(e.Args[1], env.under(a.t))
+	default:
+		a = vc.evalSpec(e.Args[0], env.nopol())
+		b = vc.evalSpec(e.Args[1], env.nopol())
+	}
 	switch e.Name {
 	case "&&":
 		return mathBool(and(a.t, b.t))
@@ -453,6 +600,7 @@ func (vc *VC) evalCall(e *Expr, env *SpecEnv) SV {
 		return mathInt("0")
 	}
 	args := e.Args[1:]
+	env = env.nopol()
 	ev := func(i int) SV { return vc.evalSpec(args[i], env) }
 	switch fn {
 	case "len":
